@@ -283,7 +283,7 @@ pub fn gen_c20(tier: &str, seed: u64) -> Vec<Vec<String>> {
         for _ in 0..r.range(1, 3) {
             c.push(format!("FMT {} {} {}", r.pick(&names), hexs(&ts), r.pick(&["lf", "lf", "crlf"])));
         }
-        if r.chance(1, 6) {
+        if r.chance(1, 10) {
             c.push(format!("FMT2 {} {} {} {}", r.pick(&names), hexs(&ts), r.pick(&["lf", "crlf"]), r.pick(&[300u64, 20_000, 70_000, 140_000])));
         }
         if r.chance(1, 2) {
